@@ -521,13 +521,16 @@ end total
 section online
 open Cv.C08 Cv.Rounding2
 
+omit [FlSqrt M] in
 /-- the initial state `(0., 0., 0., 0.)` of the online loop -/
 abbrev s0 : Fl M × Fl M × Fl M × Fl M := ((0 : Fl M), (0 : Fl M), (0 : Fl M), (0 : Fl M))
 
+omit [FlSqrt M] in
 theorem online_snoc_fl (P : List (Fl M × Fl M)) (p : Fl M × Fl M) (s : Fl M × Fl M × Fl M × Fl M) :
     (P ++ [p]).foldl onlineStep s = onlineStep (P.foldl onlineStep s) p := by
   simp [List.foldl_append]
 
+omit [FlSqrt M] in
 theorem onlineTerms_snoc (s : Fl M × Fl M × Fl M × Fl M) (P : List (Fl M × Fl M)) (p : Fl M × Fl M) :
     Rounding5.onlineTerms s (P ++ [p]) = Rounding5.onlineTerms s P ++
       [(p.1.val - (P.foldl onlineStep s).1.val) * (p.2.val - ((P ++ [p]).foldl onlineStep s).2.1.val)] := by
@@ -555,6 +558,7 @@ theorem comoment_snoc (X Y : List ℝ) (h : X.length = Y.length) (x y : ℝ) :
     field_simp
     ring
 
+omit [FlSqrt M] in
 /-- with an exact counter the two running means of the online loop are Welford's running means -/
 theorem online_means (P : List (Fl M × Fl M)) (hN : ∀ k : Nat, k ≤ P.length → M.rnd (k : ℝ) = k) :
     (P.foldl onlineStep s0).1 = (welfordStatistics (P.map Prod.fst)).2.1 ∧
@@ -589,6 +593,7 @@ theorem online_means (P : List (Fl M × Fl M)) (hN : ∀ k : Nat, k ≤ P.length
         (((welfordStatistics (P.map Prod.snd)).1 + 1 : Nat) : Fl M)
       rw [c2]
 
+omit [FlSqrt M] in
 /-- **the terms of the online loop are close to the exact co-moment increments**: exact terms `es` with
 `Σ es = C(x,y)`, `Σ|es| ≤ n·R_x·R_y`, and `Σ|t̂ₖ − eₖ| ≤ n·(R_x·E_y + R_y·E_x + E_x·E_y)` where `E_x`, `E_y`
 bound the errors of all computed running means -/
